@@ -2180,6 +2180,7 @@ class Mailbox:
         msg: EmailMessage,
         flags: list[str] | None = None,
         date_time: datetime | None = None,
+        octets: bytes | None = None,
     ) -> int:
         r"""
         Append the given message to this mailbox.
@@ -2191,6 +2192,8 @@ class Mailbox:
         - `message`: The email.message being appended to this mailbox
         - `flags`: A list of flags to set on this message
         - `date_time`: The internal date on this message
+        - `octets`: The message as the client sent it. When given this is
+          what is written to the message's file.
         """
         # Make sure we convert the IMAP flags to the accepted mh sequences.
         #
@@ -2202,7 +2205,9 @@ class Mailbox:
             seqs.append("unseen")
 
         async with self.mh_sequences_lock:
-            msg_key = int(self.mailbox.add(msg))
+            msg_key = int(
+                self.mailbox.add(octets if octets is not None else msg)
+            )
 
         # Update the message and internal sequences.
         #
